@@ -290,6 +290,23 @@ func (h *hist) read(s *msock) (done bool, f *evid.Failure) {
 	// the head of the queue, skipping arrivals whose acceptance was optional
 	for i, d := range s.q {
 		if bytes.Equal(got, d.data) && sameSource(s.cfg.Net, from, d) {
+			if d.opt {
+				// d may have been dropped, and what was returned may be a later arrival that
+				// Read cannot tell from it (same bytes, same sender): if only optional arrivals
+				// lie between the two, that one is no longer certain to be still queued
+				for _, x := range s.q[i+1:] {
+					if bytes.Equal(x.data, d.data) && bytes.Equal(x.src, d.src) && x.sport == d.sport && x.fam == d.fam {
+						if !x.opt {
+							x.opt = true
+							evid.Label("read:indistinguishable-twin-made-optional")
+						}
+						break
+					}
+					if !x.opt {
+						break
+					}
+				}
+			}
 			s.q = s.q[i+1:]
 			d.read = true
 			evid.Label("read:datagram")
